@@ -17,7 +17,7 @@ import typing as t
 from ..core import Suite, Ctx, triage_exception
 from .. import tg, gen
 from ..codec import short
-from ..oracles import blame
+from ..oracles import blame, outcome
 
 ID = 'C03'
 RULE = ("Hypothesis: the shared conversion generator (full type grammar incl. conditions with raising predicates, tagged unions in three "
@@ -180,6 +180,84 @@ def _condition_cases() -> t.Any:
     return cond_cases().map(lambda c: [c[0], c[1], 'condition'])
 
 
+# ---- the documented extension points: a union with a constructor, a default factory of the user's -------------------------------
+#
+# UnionConverter(types, constructor=f) is how ValueOrList is built and how a `_converter` hook builds "one of these, then wrap": f may
+# refuse a member's result, and the next member is then tried *with the same input*.  A field's default_factory is user code that may
+# raise, like __post_init__.  In both places the fast pass and the diagnostic pass answer alike, and only ConvertError leaves convert().
+
+_EXT: t.Dict[str, t.Any] = {}
+
+
+def ext_cases(shard: int, nshards: int) -> t.Iterator[t.Any]:
+    i = 0
+    for kind in ('union-constructor', 'raising-default-factory'):
+        for vi in range(6):
+            for where in ('bare', 'List', 'Optional'):
+                if i % nshards == shard:
+                    yield [kind, vi, where]
+                i += 1
+
+
+def check_extension(case: t.Any, ctx: Ctx) -> None:
+    import pane
+    import datetime as D
+    from pane.converters import UnionConverter
+    from pane.convert import make_converter
+    from pane.errors import ParseInterrupt
+    (kind, vi, where) = case
+    if kind not in _EXT:
+        if kind == 'union-constructor':
+            class Deadline:
+                """A date of this century, or free text: read by a union whose constructor refuses old dates."""
+                def __init__(self, v: t.Any) -> None:
+                    self.v = v
+
+                def __eq__(self, other: t.Any) -> bool:
+                    return type(other) is Deadline and self.v == other.v
+
+                def __repr__(self) -> str:
+                    return f"Deadline({self.v!r})"
+
+                @classmethod
+                def _converter(cls, *args: t.Any, handlers: t.Any = None) -> t.Any:
+                    def build(val: t.Any, i: int) -> t.Any:
+                        if i == 0 and val.year < 2000:
+                            raise ValueError('too old for a date: keep it as text')
+                        return cls(val)
+                    return UnionConverter((D.date, str), constructor=build, **({'handlers': handlers} if handlers is not None else {}))
+            _EXT[kind] = Deadline
+        else:
+            def factory() -> t.Any:
+                if _EXT.get('factory-fails'):
+                    raise LookupError('no default available today')
+                return 'main'
+            _EXT['factory-fails'] = False
+            _EXT[kind] = type('Job', (pane.PaneBase,), {'__annotations__': {'name': str, 'queue': str}, 'queue': pane.field(default_factory=factory)},
+                              in_format=('struct', 'tuple'))
+    X = _EXT[kind]
+    _EXT['factory-fails'] = True        # (the class is defined by now: pane evaluates the factory once for the signature)
+    v = (['2024-05-06', '1999-12-31', 'whenever', 5, None, ''] if kind == 'union-constructor' else
+         [{'name': 'b'}, {'name': 'b', 'queue': 'q'}, ['b'], ['b', 'q'], {'name': 5}, {}])[vi]
+    (T, data) = {'bare': (X, v), 'List': (t.List[X], [v]), 'Optional': (t.Optional[X], v)}[where]
+    ctx.label(kind, where)
+    ctx.nontrivial(True)
+    conv = make_converter(T)
+    ctx.evaluated(3)
+    fast = outcome(lambda: conv.try_convert(data))
+    diag = outcome(lambda: conv.collect_errors(data))
+    full = outcome(lambda: pane.from_data(data, T))
+    fast_ok = fast[0] == 'ok'
+    fast_refused = fast[0] != 'ok' and isinstance(fast[1], ParseInterrupt)
+    ident = f"{kind} ({where}) given {short(data, 60)}"
+    if not (fast_ok or fast_refused):
+        ctx.fail('two-pass-agree', f"{kind}:fast-pass-raises:{type(fast[1]).__name__}", f"{ident}: try_convert raised {type(fast[1]).__name__}: {str(fast[1])[:150]} (neither a value nor ParseInterrupt)")
+    elif diag[0] != 'ok' or (diag[1] is None) != fast_ok:
+        ctx.fail('two-pass-agree', f"{kind}:passes-disagree", f"{ident}: try_convert {'accepts' if fast_ok else 'refuses'}, collect_errors gives {short(diag[1], 100)}")
+    elif full[0] not in ('ok', 'ce') or (full[0] == 'ok') != fast_ok:
+        ctx.fail('no-runtimeerror', f"{kind}:{type(full[1]).__name__}", f"{ident}: from_data gives {full[0]} {short(full[1], 120)} although try_convert {'accepts' if fast_ok else 'refuses'}")
+
+
 def suites(tier: str) -> t.List[Suite]:
     big = tier == 'thorough'
     leaves = 8 if big else 4
@@ -188,6 +266,7 @@ def suites(tier: str) -> t.List[Suite]:
         Suite('twopass', check, strategy=lambda: gen.conv_cases(gen.all_type_specs(leaves)), examples=8000 if big else 600,
               budget_s=480 if big else 40, render=gen.render_case),
         # conditions see the *converted* value in both passes: the condition grammar of C13 (thresholds, duplicates collapsing in sets, ...)
+        Suite('extension-points', check_extension, cases=ext_cases, exhaustive=True, budget_s=30, render=lambda c: {'kind': c[0], 'value': c[1], 'where': c[2]}),
         Suite('conditions', check, strategy=_condition_cases, examples=3000 if big else 300, budget_s=120 if big else 20, render=gen.render_case),
         *([Suite('atheris', check_atheris, cases=atheris_cases, budget_s=ATHERIS_BUDGET + 200)] if big else []),
     ]
